@@ -2,7 +2,7 @@
 
 PROP = {'gen_tables': ['Pools'],
  'race': True,
- 'rule': 'ops: histories (quick: 168 targeted + 700 random pinned + 60 concurrent; thorough: 168 + 12000 + 800). Each case = one observed call + a history of 1–12 operations. Observed call: (70 %) an encoder-family op '
+ 'rule': 'ops: histories (quick: 168 + 36 targeted, 200 same-logger, 600 random pinned, 60 concurrent; thorough: 204 + 3000 + 10000 + 800). Each case = one observed call + a history of 1–12 operations. Observed call: (70 %) an encoder-family op '
          '(JSON or console; the generator of C01/C02/C10/C16: hostile keys, nested marshalers, dangling namespaces, reflected values, '
          'failing marshalers, error groups; a third through a core built BEFORE the history, a fifth with a sink that logs re-entrantly) '
          'or (30 %) a logger-level call (AddCaller, AddStacktrace, Development, panic/fatal hooks that return, failing sink, With fields; '
@@ -23,7 +23,12 @@ PROP = {'gen_tables': ['Pools'],
          '*CheckedEntry they were handed they log through an unrelated logger and (mode 2) yield so that other goroutines log, then record '
          'level, logger name, message, time, caller, stack and the fields; the record must start with what the inputs dictate '
          '(level|logger|message|#fields) and the built-in panic hook must panic with the call\'s message (C08:history-dependent:hook-entry:…). '
-         'Oracle: bytes at the observed sink, what the observed hook read, bytes at the observed error output, write count, panic text and hook calls equal '
+         'same mode: the history runs through the OBSERVED core / logger itself (same core object): field-less entries, entries with fields, '
+         'the observed call itself, fields that panic with namespaces open, Check without Write, Sync, With-children (logged through or not), GCs, '
+         'optionally preceded by a history on other loggers; two thirds of these cases have a context that leaves a namespace open; the '
+         'observed call through that core, through a child derived BEFORE and through a child derived AFTER that history must equal the same '
+         'call through an identically constructed fresh core / a child of a fresh core (…:same-logger[:child-before|:child-after]), and '
+         'first-in-process. Oracle: bytes at the observed sink, what the observed hook read, bytes at the observed error output, write count, panic text and hook calls equal '
          'B0, and nothing reached a sink, error output or hook of the history. non-trivial = history length ≥ 1; distinct = distinct '
          'canonical op JSON',
  'assumptions': ['sync.Pool hands an object to one user at a time and returns either New() or an object that was Put before (the model '
@@ -35,6 +40,9 @@ PROP = {'gen_tables': ['Pools'],
                  'a reflected value reaches the buffer as the text encoding/json produced followed by a newline (C01/C02 leaf assumption); '
                  'user-supplied NewReflectedEncoder, sub-encoders and sinks that retain what they are handed are outside the claim, as is a '
                  'CheckedEntry used after Write (documented misuse; the dirty flag is modelled but not claimed)',
+                 'the clone-discipline table (recvMutations) classifies an encoder method as mutating syntactically (assignment to a receiver field, '
+                 'non-read call on the receiver\'s buffers, receiver passed on, mutating method on the receiver); ioCore may call only EncodeEntry and '
+                 'Clone on its encoder; other Core implementations holding encoders are outside the table',
                  'Gen/Pools is syntactic (go/ast, no type checker): receivers of Free/put calls are resolved through parameter, result and '
                  'field types; a shape it cannot read removes the table (gen:Pools)',
                  'the real scheduler and the real sync.Pool are sampled (pinned goroutine: deterministic LIFO reuse, except that the race '
@@ -48,6 +56,6 @@ PROP = {'gen_tables': ['Pools'],
  'level_text': 'history_independent: for every history and every behaviour of sync.Pool each observable result equals that of the pool-free run '
                '(JSON line = Enc.encodeEntry, console line = Console.consoleLine); encode_independent_of_garbage for every object satisfying '
                'PutInv; in_flight_undisturbed for any nested activity between EncodeEntry and the sink\'s return; seven leak_* witnesses show '
-               'each reset statement is needed; hook_reads_own_entry: a CheckedEntry stays out of the pool until its hook returned (leak_early_put); put_is_last_use over the source; field_covered / source_matches_model / free_sites are decided over today\'s source.',
+               'each reset statement is needed; hook_reads_own_entry: a CheckedEntry stays out of the pool until its hook returned (leak_early_put); put_is_last_use over the source; core_encoder_unchanged_by_write / same_core_first_or_later: the encoder a core holds is never changed by logging through it (leak_receiver_mutated), receiver_encoder_never_mutated over the source; field_covered / source_matches_model / free_sites are decided over today\'s source.',
  'level_note': 'sync.Pool exclusivity and the interleaving granularity are trusted; the schedule and the runtime pool are sampled, not proved.',
 }
